@@ -5,7 +5,7 @@ from . import core
 from .core import log
 
 RBUFS = [0, 1, 125, 126, 256, 4096]
-CHUNKS = ["whole", "byte", "half", "frame", "hdr", "rand"]
+CHUNKS = ["whole", "byte", "half", "frame", "hdr", "rand", "zsync"]
 
 
 def concretise(progs, pid, tier, seed, mult, rbufs=RBUFS, chunks=CHUNKS, tail=3, long_tail=0.0):
